@@ -170,6 +170,11 @@ type File struct {
 	GoName    string // package name ("" = derive from import path)
 	NoGoPkg   bool   // omit go_package option
 	Imports   []string
+	// Public lists imports re-exported with `import public` (they are added to the dependencies).
+	Public []string
+	// Via names an umbrella file (one that publicly imports the sebuf annotation files): when set, this
+	// file imports the umbrella instead of sebuf/http/annotations.proto and headers.proto themselves.
+	Via       string
 	Messages  []*Message
 	Enums     []*EnumDef
 	Services  []*Service
@@ -240,6 +245,7 @@ func (f *Field) With(fn func(a *Ann)) *Field {
 func (f *File) Clone() *File {
 	c := *f
 	c.Imports = append([]string(nil), f.Imports...)
+	c.Public = append([]string(nil), f.Public...)
 	c.Messages = cloneMsgs(f.Messages)
 	c.Enums = cloneEnums(f.Enums)
 	c.Services = nil
